@@ -63,9 +63,11 @@ def seed_pool():
 # ------------------------------------------------------------ histories -> scripts
 def finish_history(ops, nt):
     """ops: list of (t, 'S', seed) | (t, 'C', f, a) | (t, 'X').  Close every seeding with a raw probe and
-    add a canonical twin (new thread: the seeding and its calls only) for every seeding that is not the
-    first thing its thread does.  Returns (ops, number of threads, number of twins)."""
+    add a canonical twin (a new thread that makes the seeding and its calls only, while no other thread
+    is drawing) for every seeding, except the first one of a thread that is alone in the history (that one
+    is canonical itself).  Returns (ops, number of threads, number of twins)."""
     out = []
+    nmain = nt
     cur = {}          # t -> [seed, calls] of the open seeding
     nseg = {}         # t -> seedings so far
     twins = []
@@ -75,7 +77,7 @@ def finish_history(ops, nt):
             seg = cur.pop(t)
             if not seg[1] or seg[1][-1][0] != "raw":
                 seg[1].append(("raw", 0)); out.append((t, "C", "raw", 0))
-            if nseg[t] > 1:
+            if nseg[t] > 1 or nmain > 1:
                 twins.append(seg)
     for o in ops:
         t = o[0]
@@ -91,7 +93,12 @@ def finish_history(ops, nt):
     for t in sorted(cur):
         close(t)
     ntw = 0
+    done = set()
     for seg in twins:
+        k = (seg[0], tuple(seg[1]))
+        if k in done:
+            continue
+        done.add(k)
         if nt >= 16:
             break
         nt += 1; ntw += 1
@@ -100,8 +107,8 @@ def finish_history(ops, nt):
     return out, nt, ntw
 
 
-def script_text(hid, mode, nt, ops):
-    ls = ["H %d %s %d" % (hid, mode, nt)]
+def script_text(hid, mode, nt, ops, npar):
+    ls = ["H %d %s %d %d" % (hid, mode, nt, npar)]
     for o in ops:
         if o[1] == "S":
             ls.append("S %d %016x" % (o[0], o[2]))
@@ -245,11 +252,13 @@ def run(tier, replay=None):
         if not any(o[1] == "C" for o in ops2):
             return
         hid[0] += 1
-        scripts.append((hid[0], script_text(hid[0], mode, nt2, ops2), kind))
+        scripts.append((hid[0], script_text(hid[0], mode, nt2, ops2, nt), kind))
 
     if not replay:
-        import shutil
+        import shutil, glob
         shutil.rmtree(os.path.join(out, "replay"), ignore_errors=True)
+        for f in glob.glob(os.path.join(out, "trace_*.ndjson")) + glob.glob(os.path.join(out, "script_*.txt")):
+            os.remove(f)
     if replay:
         txt = open(replay).read()
         ids = [int(x) for x in re.findall(r"^H (\d+)", txt, re.M)]
@@ -306,13 +315,13 @@ def run(tier, replay=None):
             nthr = max(t for (t, _, _) in h)
             add(abstract_to_ops(h, i, pool), nthr, "seq", "tlc")
         # the same interleavings left to the OS for a sample
-        step = 7 if tier == "quick" else 3
+        step = 7 if tier == "quick" else 4
         for i, h in enumerate(hists[vlib.seed() % step::step]):
             nthr = max(t for (t, _, _) in h)
             add(abstract_to_ops(h, i * 11 + 5, pool), nthr, "par", "tlc-par")
         # ---- 2. seeded random long histories
         rr = random.Random(vlib.seed())
-        for k in range(400 if tier == "quick" else 4000):
+        for k in range(400 if tier == "quick" else 3000):
             ops, nthr = random_history(rr, pool)
             add(ops, nthr, "par" if k % 4 else "seq", "random")
 
